@@ -389,9 +389,10 @@ func (sc *serverConn) readLoop() (err error) {
 		case FrameSettings:
 			st := fr.Body().(*Settings)
 			if !st.IsAck() { // if it has ack, just ignore
-				sc.handleSettings(st)
-				// forward to handleStreams so the INITIAL_WINDOW_SIZE delta is
-				// applied to open streams in frame order.
+				// Applied, and acknowledged, on the stream loop: the encoder
+				// and the stream windows are its to change, and the
+				// acknowledgement says the new values are in force, so it
+				// must not overtake the INITIAL_WINDOW_SIZE delta.
 				if !sc.forward(fr) {
 					return errConnClosed
 				}
@@ -682,6 +683,8 @@ loop:
 
 						sc.flushStreams(strms, closeStream)
 					}
+
+					sc.handleSettings(st)
 				case FrameWindowUpdate:
 					sc.clientWindow += int64(fr.Body().(*WindowUpdate).Increment())
 					if sc.clientWindow > 1<<31-1 {
